@@ -365,6 +365,19 @@ pub fn run(ctx: &mut Ctx) {
         ctx.shape(("nb", len, b0));
     });
 
+    // ---- scripts at the size limit (a script longer than 10 000 bytes is provably unspendable)
+    ctx.phase("size-limit-scripts", 12, |ctx, k| {
+        let len = [9_999usize, 10_000, 10_001, 10_002][(k % 4) as usize];
+        let mut s = gen::bytes(&mut ctx.rng, len);
+        s[0] = match k / 4 {
+            0 => 0x51,
+            1 => 0x6a,
+            _ => 0x00,
+        };
+        check_templates(ctx, &s, "size-limit");
+        ctx.shape(("size-limit", len, s[0]));
+    });
+
     // ---- every value of each fixed-position byte of the exact templates
     ctx.phase("template-byte-sweeps", 8, |ctx, k| {
         let h20 = gen::bytes(&mut ctx.rng, 20);
